@@ -52,8 +52,8 @@ theorem startDo_pend {ap : Api} (s : St) (m : Meth) (skip : Bool) (tp : Nat) (fs
       · exact hE _ _ (by simpa [Pend] using h2)
       · exact blockedFor_wait _ _ _ _ _ h2
 
-theorem describeStart_pend {ap : Api} (s : St) (fs k : List Fr) (retK : St → Val → St)
-    (hd : Pend ap s) (hR : ∀ s' v, Pend ap s' → BlockedFor ap (retK s' v)) : BlockedFor ap (describeStart s fs k retK) := by
+theorem describeStart_pend {ap : Api} (s : St) (rd : Nat) (fs k : List Fr) (retK : St → Val → St)
+    (hd : Pend ap s) (hR : ∀ s' v, Pend ap s' → BlockedFor ap (retK s' v)) : BlockedFor ap (describeStart s rd fs k retK) := by
   unfold describeStart
   split
   · split
@@ -78,8 +78,14 @@ theorem setupStart_pend {ap : Api} (c : Cfg) (s : St) (a : SetupArgs) (k : List 
         | exact startDo_pend _ _ _ _ _ _ _ _ hd1 (fun s' e h => hR _ _ h) (fun hf => by cases hf)
   · exact hR _ _ hd
 
-theorem clearSession_pend (s : St) (hd : Pend ap s) : Pend ap (clearSession s) := by
-  simpa [Pend, clearSession, closeConn] using hd
+theorem closeConn_pend {ap : Api} (s : St) (hd : Pend ap s) : Pend ap (closeConn s) := by
+  unfold closeConn
+  simp only []
+  split <;> simpa [Pend, emit] using hd
+
+theorem clearSession_pend {ap : Api} (s : St) (hd : Pend ap s) : Pend ap (clearSession s) := by
+  have h := closeConn_pend s hd
+  simpa [Pend, clearSession] using h
 
 theorem afterReset_pend {ap : Api} (s : St) (n : AfterReset) (k : List Fr)
     (retK : St → Val → St) (hd : Pend ap s) (hR : ∀ s' v, Pend ap s' → BlockedFor ap (retK s' v)) :
@@ -87,13 +93,13 @@ theorem afterReset_pend {ap : Api} (s : St) (n : AfterReset) (k : List Fr)
   have hc := clearSession_pend s hd
   unfold afterReset
   cases n with
-  | redirect loc =>
+  | redirect loc n =>
     cases loc <;> simp only []
     all_goals first
       | exact hR _ _ hc
-      | exact describeStart_pend _ _ _ _ (by simpa [Pend] using hc) hR
+      | exact describeStart_pend _ _ _ _ _ (by simpa [Pend] using hc) hR
   | switchTcp a =>
-    exact describeStart_pend _ _ _ _ (by simpa [Pend] using hc) hR
+    exact describeStart_pend _ _ _ _ _ (by simpa [Pend] using hc) hR
 
 theorem resetStart_pend {ap : Api} (c : Cfg) (s : St) (n : AfterReset) (k : List Fr)
     (retK : St → Val → St) (hd : Pend ap s) (hR : ∀ s' v, Pend ap s' → BlockedFor ap (retK s' v)) :
@@ -118,9 +124,9 @@ theorem setupResp_pend {ap : Api} (c : Cfg) (s : St) (a : SetupArgs) (p : Proto)
   · exact setupStart_pend _ _ _ _ _ (by simpa [Pend] using hd) hR
   · exact resetStart_pend _ _ _ _ _ (by simpa [Pend] using hd) hR
 
-theorem describeResp_pend {ap : Api} (c : Cfg) (s : St) (r : Resp) (k : List Fr)
+theorem describeResp_pend {ap : Api} (c : Cfg) (s : St) (rd : Nat) (r : Resp) (k : List Fr)
     (retK : St → Val → St) (hd : Pend ap s) (hR : ∀ s' v, Pend ap s' → BlockedFor ap (retK s' v)) :
-    BlockedFor ap (describeResp c s r k retK) := by
+    BlockedFor ap (describeResp c s rd r k retK) := by
   unfold describeResp
   repeat' split
   all_goals first
@@ -170,11 +176,11 @@ theorem frameRet_pend {ap : Api} (c : Cfg) (f : Fr) (k : List Fr) (retK : St →
          all_goals first
            | exact hR _ _ hd
            | exact hR _ _ (by simpa [Pend] using hd))
-  | describeK =>
+  | describeK rd =>
     cases v <;> simp only []
     all_goals first
       | exact hR _ _ hd
-      | exact describeResp_pend _ _ _ _ _ hd hR
+      | exact describeResp_pend _ _ _ _ _ _ hd hR
   | announceK =>
     cases v <;> simp only []
     all_goals first
